@@ -76,8 +76,9 @@ def pairs(rng, focus, n):
     pad = "/* " + "x" * 6000 + " */ "
     # every twin of the table once (direction by the seed), then n random ones (some of them "far")
     todo = [(t, False) for t in STRING_TWINS] + [(rng.choice(STRING_TWINS), rng.random() < 0.4) for _ in range(n)]
-    num_iter = iter(NUM_TWINS * 50)
-    w_iter = iter(WEIGHT_TWINS * 50)
+    import itertools
+    num_iter = itertools.cycle(NUM_TWINS)
+    w_iter = itertools.cycle(WEIGHT_TWINS)
     for idx, ((kind, a, b), far) in enumerate(todo):
         if rng.random() < 0.5:
             a, b = b, a
